@@ -127,8 +127,10 @@ def _lock_factory():
 
 
 class FakeVariable:
-    """distributed.Variable stand-in: get() of a never-set variable times out."""
+    """distributed.Variable stand-in: get() of a never-set variable times out.  `stale`: what an earlier, abandoned attempt to write the
+    same object left in the (same-named) Variable - returned for any name nobody has set in this run (spec/s3/S3Prep.tla)."""
     store = {}
+    stale = None
 
     def __init__(self, name=None, client=None):
         self.name = name
@@ -136,6 +138,8 @@ class FakeVariable:
     def get(self, timeout=None):
         _yp("vget")
         if self.name not in FakeVariable.store:
+            if FakeVariable.stale is not None:
+                return FakeVariable.stale
             raise TimeoutError()
         return FakeVariable.store[self.name]
 
@@ -168,6 +172,8 @@ def replay_schedule(case, explore=None):
     _B = B
     FakeLock.holders = {}
     FakeVariable.store = {}
+    # history: every other cluster-coordinated run starts on a cluster where an earlier attempt at the same object died after initiating
+    FakeVariable.stale = "upload-of-an-abandoned-attempt" if mode == "dist" and (len(case["sched"]) + n) % 2 == 0 else None
     fake = FakeS3()
     client = object() if mode == "dist" else None
     TracedMPU = _traced_mpu_class()
@@ -240,6 +246,7 @@ def replay_schedule(case, explore=None):
             B.finish()
     finally:
         _B = None
+        FakeVariable.stale = None
         assert S3._state is saved_state
     outcomes = [[p, B.results.get(p, ("never_ran",))[0]] for p in range(0, n + 1) if B.results.get(p, ("x",))[0] != "aborted"]
     steps = [[p, k] for p, k in B.steps]
@@ -465,6 +472,10 @@ def run(ctx):
                                   simulate=f"num={400 if q else 6000}", depth=100, seed=ctx.seed, workers=1,
                                   label=f"MC_S3/{name} simulation")
         cases += cs
+    # attempts to write one object in sequence, some abandoned: prep_client must reset the shared Variable unconditionally
+    ctx.model_check("s3/S3Prep.tla", "S3Prep.cfg", timeout=300, label="S3Prep (attempt history, unconditional reset)")
+    ctx.model_check("s3/S3Prep.tla", "S3Prep_conditional.cfg", expect_violation="OwnUploadOnly", timeout=300,
+                    label="S3Prep/conditional reset (counterexample expected: the model shows why the reset is load-bearing)")
     ctx.model_check("s3/MC_S3.tla", "MC_S3_local2_asfound.cfg", expect_violation="NoWriterFails", timeout=300,
                     label="MC_S3/local2 as found (no re-check under the lock)")
     events = ctx.pmap(replay_schedule, cases, procs=16)
